@@ -14,7 +14,11 @@ pub trait Tok: Clone + PartialEq + Debug + 'static + Send + Sync + chumsky::text
 
 /// Symbols 0..8 are the abstract alphabet of the generated grammars; 8..16 are only used by cases with
 /// text parsers (whitespace, newlines, digits, underscore): see gram::G::Text / G::Padded.
-pub const BYTES: [u8; 16] = [b'a', b'b', b'c', b'd', b'e', b'f', b'g', b'h', b' ', b'\n', b'\r', b'0', b'7', b'_', b'\t', b'Z'];
+/// 16..24 are the ASCII neighbours of the character classes ('@' 'A', '`' 'a', '/' '0', '9' ':',
+/// 'Z' '[', 'z' '{', 'F' 'G'): where hand-written classification code goes wrong.
+pub const BYTES: [u8; 24] = [b'a', b'b', b'c', b'd', b'e', b'f', b'g', b'h', b' ', b'\n', b'\r', b'0', b'7', b'_', b'\t', b'Z', b'@', b'`', b'/', b':', b'[', b'{', b'G', b'9'];
+/// Alphabet size of cases with text parsers / padded().
+pub const NSYM_TEXT: u8 = 24;
 
 impl Tok for u8 {
     fn from_sym(s: u8) -> u8 {
@@ -27,20 +31,39 @@ impl Tok for u8 {
 
 /// 1-, 2-, 3- and 4-byte characters so that &str byte offsets differ from token indices; 8..16 as
 /// for bytes, with a 3-byte (U+2028) and a 2-byte (U+0085) line terminator.
-pub const CHARS: [char; 16] = ['a', 'é', 'b', '日', 'c', '😀', 'd', 'ß', ' ', '\n', '\r', '0', '7', '_', '\u{2028}', '\u{85}'];
+pub const CHARS: [char; 24] = ['a', 'é', 'b', '日', 'c', '😀', 'd', 'ß', ' ', '\n', '\r', '0', '7', '_', '\u{2028}', '\u{85}', '@', '`', '/', ':', '[', '{', 'G', '\u{FF19}'];
 
 /// Display form of a symbol in logs, S-expressions and replay files.
 pub fn sym_char(s: u8) -> char {
-    const SHOW: [char; 16] = ['a', 'b', 'c', 'd', 'e', 'f', 'g', 'h', '␣', '␤', '␍', '0', '7', '_', '⇥', 'Z'];
+    const SHOW: [char; 24] = ['a', 'b', 'c', 'd', 'e', 'f', 'g', 'h', '␣', '␤', '␍', '0', '7', '_', '⇥', 'Z', '@', '`', '/', ':', '[', '{', 'G', '9'];
     SHOW.get(s as usize).copied().unwrap_or('?')
+}
+
+thread_local! {
+    static ASCII_CHARS: std::cell::Cell<bool> = const { std::cell::Cell::new(false) };
+}
+
+/// While on (srcsim, for the duration of one run), symbols map to the ASCII characters of `BYTES`
+/// instead of `CHARS`: the character inputs (`&str`, `&[char]`, a stream of chars) then carry the
+/// very same text as the byte inputs of the case and are compared with the `&[u8]` reference.
+pub fn set_ascii_chars(on: bool) {
+    ASCII_CHARS.with(|c| c.set(on));
 }
 
 impl Tok for char {
     fn from_sym(s: u8) -> char {
-        CHARS[s as usize % CHARS.len()]
+        if ASCII_CHARS.with(|c| c.get()) {
+            BYTES[s as usize % BYTES.len()] as char
+        } else {
+            CHARS[s as usize % CHARS.len()]
+        }
     }
     fn to_sym(&self) -> u8 {
-        CHARS.iter().position(|c| c == self).map(|p| p as u8).unwrap_or(255)
+        if ASCII_CHARS.with(|c| c.get()) {
+            BYTES.iter().position(|c| *c as char == *self).map(|p| p as u8).unwrap_or(255)
+        } else {
+            CHARS.iter().position(|c| c == self).map(|p| p as u8).unwrap_or(255)
+        }
     }
 }
 
